@@ -22,6 +22,7 @@ struct ShapeSnap {
 	bool triOk = false, isStrips = false;
 	std::vector<Triangle> tris;
 	std::vector<std::vector<uint16_t>> strips;
+	std::vector<Triangle> stripTris; // strips expanded by the harness (naive definition, independent of the library's helper)
 	// skin
 	bool skinned = false;
 	std::vector<std::string> bones;
@@ -60,6 +61,7 @@ bool sameV3(const std::vector<Vector3>& a, const std::vector<Vector3>& b, float 
 bool sameV2(const std::vector<Vector2>& a, const std::vector<Vector2>& b, float tol, size_t* at = nullptr);
 bool sameC4(const std::vector<Color4>& a, const std::vector<Color4>& b, float tol, size_t* at = nullptr);
 std::string triStr(const Triangle& t);
+std::vector<Triangle> expandStrips(const std::vector<std::vector<uint16_t>>& strips);
 
 NiShape* shapeAt(NifFile& nif, uint64_t sel);      // k-th shape modulo count (nullptr if none)
 std::vector<uint16_t> pickVerts(const json& spec, uint16_t nv); // selector -> sorted unique indices
